@@ -36,6 +36,7 @@ def run(rep: Report, tier: str) -> None:
 	rule_d(rep, idx, nm, gm)
 	rule_e(rep, idx, nm, gm)
 	rule_f(rep, idx, nm, gm)
+	rule_g(rep, idx, nm)
 
 
 def py_key(tok: str, kind: str) -> str:
@@ -503,3 +504,43 @@ def _first_occurrence_lookups(fn_node: ast.AST) -> list[tuple[ast.Call, str]]:
 			if (isinstance(recv, ast.Name) and recv.id in paths) or (isinstance(recv, ast.Attribute) and recv.attr == 'elements'):
 				out.append((c_, const_str(c_.args[0])))
 	return out
+
+
+# ---- (g) list-valued child selections decide each child on its own ------------------------------------------------------------------
+
+def rule_g(rep: Report, idx: SourceIndex, nm: NodeModel) -> None:
+	"""A node property that hands out a list of syntax children (bases, decorators, parameters, statements, ...) mirrors a list of CPython's tree. Leaving a
+	child out is a per-child decision (the `Generic[...]` marker among the bases, the docstring among the statements). A selection loop that stops
+	(`break`, `return` inside the loop, takewhile/dropwhile) makes a child's presence depend on the siblings before it: `class B(Generic[T], Base)` loses
+	`Base`, which CPython keeps."""
+	from checks.c09 import declared_list
+	from vlib.fold import enclosing_loop
+	from vlib.norm import helper_closure
+	r = rep.rule('C02/child-lists-select-elementwise', 'no list-valued property of a node class builds its list of children with a loop that stops early (break / return in the loop / takewhile / dropwhile): every child is kept or left out on its own', floor=40)
+	seen = set()
+	for c in nm.classes:
+		for name, defs in c.methods.items():
+			for f in defs:
+				if not (f.is_property and declared_list(f)) or id(f) in seen:
+					continue
+				seen.add(id(f))
+				stops = []
+				for g in helper_closure(f, 2):
+					for lp in [n for n in ast.walk(g.node) if isinstance(n, ast.For)]:
+						appends = [n for n in ast.walk(lp) if isinstance(n, ast.Call) and isinstance(n.func, ast.Attribute) and n.func.attr in ('append', 'extend', 'insert')] + [n for n in ast.walk(lp) if isinstance(n, (ast.Yield, ast.YieldFrom))]
+						if not appends:
+							continue
+						for n in ast.walk(lp):
+							if isinstance(n, ast.Break) and enclosing_loop(g.node, n) is lp:
+								stops.append((g, n, 'break'))
+							elif isinstance(n, ast.Return):
+								stops.append((g, n, 'return inside the loop'))
+					for n in ast.walk(g.node):
+						if isinstance(n, ast.Call) and unparse(n.func).split('.')[-1] in ('takewhile', 'dropwhile'):
+							stops.append((g, n, unparse(n.func)))
+				key = f'{c.name}.{name}'
+				if stops:
+					g, n, how = stops[0]
+					r.violate(key, (g.module.relpath, n.lineno), f'{c.name}.{name} collects its children with a loop that stops early ({how}): every child after the one that triggers the stop is missing from the node tree although CPython keeps it (e.g. a base class listed after `Generic[T]`)', unparse(n)[:80])
+				else:
+					r.ok(key, f.where)
